@@ -93,7 +93,7 @@ def handle (op : String) (args : List String) : String :=
   | "valid", [opts, h] =>
     match parseOpts opts, bytesOfHex h with
     | some o, some v =>
-      let a := match reformatValue o (2 * v.length + 2) [] (skipWS v) 1 with
+      let a := match reformatValue o (3 * v.length + 4) [] (skipWS v) 1 with
         | .ok (_, rest) => (skipWS rest).isEmpty
         | .error _ => false
       let b := JsonV.Model.Validate.isValid ⟨o.allowInvalidUTF8, o.allowDup⟩ v
